@@ -2177,6 +2177,9 @@ argument `default_label_format` (e.g. 'x{}').
             if len(vg) == 0:
                 continue
             if isinstance(vg, SingletonVariableGroup):
+                while varid < vg[0]:
+                    yield default_label_format.format(varid)
+                    varid += 1
                 yield vg.name
                 varid += 1
                 continue
